@@ -29,6 +29,18 @@ Definition permitted_part (S : isch) (p : option operm) (fuel : nat) : isch :=
          is_dirs := is_dirs S |}
   end.
 
+(* field order is not part of what a client reconstructs: both sides are compared with the fields of every type sorted by name *)
+Fixpoint insert_field (f : ifield) (l : list ifield) : list ifield :=
+  match l with
+  | [] => [f]
+  | g :: t => if String.ltb (if_name g) (if_name f) then g :: insert_field f t else f :: l
+  end.
+Definition sort_fields (S : isch) : isch :=
+  {| is_types := map (fun t => {| it_kind := it_kind t; it_name := it_name t; it_desc := it_desc t;
+                                  it_fields := fold_right insert_field [] (it_fields t);
+                                  it_ifaces := it_ifaces t; it_possible := it_possible t; it_enum := it_enum t |}) (is_types S);
+     is_dirs := is_dirs S |}.
+
 Fixpoint has_null_elem (l : list json) : bool := match l with [] => false | JNull :: _ => true | _ :: t => has_null_elem t end.
 Definition arr_ok (o : option json) : bool := match o with Some (JArr l) => negb (has_null_elem l) | Some JNull => true | _ => false end.
 Definition types_of (j : json) : list json :=
@@ -57,7 +69,7 @@ Definition check_introspect_case (c : introspect_case) : list (string * bool) :=
   let obs := match ic_obs c with Some j => j | None => JNull end in
   [ ("corr.answer", option_eqb json_eqb (Some model) (ic_obs c));
     ("prop.c17.reconstructs", match reconstruct obs with
-                              | Some R => json_eqb (introspect R None) (introspect spec None)
+                              | Some R => json_eqb (introspect (sort_fields R) None) (introspect (sort_fields spec) None)
                               | None => false end);
     ("prop.c17.confined", match ic_perm c with
         | None => true
@@ -78,10 +90,13 @@ Definition check_introspect_case (c : introspect_case) : list (string * bool) :=
                                       (forallb (fun i => has_key i v) (it_ifaces t) &&
                                        (negb (kind_abstract (it_kind t)) || forallb (fun n => has_key n v) (it_possible t)))) (is_types S)
         end);
-    (* true = the view contains every permitted type (trigger of KF-view-fragment-only-type) *)
-    ("guard.c17_view_has_permitted_types", match view with
+    (* true = nothing is permitted only through a fragment on a type that is not the type of a permitted field (trigger of
+       KF-view-fragment-only-type): the permitted part computed with and without fragment-only reachability is the same *)
+    ("guard.c17_no_fragment_only_field", match ic_perm c with
         | None => true
-        | Some v => forallb (fun t => has_key (it_name t) v) (is_types spec)
+        | Some p => Nat.eqb (List.length (selectable_pairs (reach_all true fuel_r vs p) vs))
+                            (List.length (selectable_pairs (reach_all false fuel_r vs p) vs)) &&
+                    Nat.eqb (List.length (reach_all true fuel_r vs p)) (List.length (reach_all false fuel_r vs p))
         end);
     (* the hypothesis of C17_reconstruction_roundtrip holds of this schema *)
     ("prop.c17.roundtrip_hypothesis_met", wfb S);
